@@ -234,6 +234,36 @@ func genC09(e *emitter, tier string) {
 			}
 		}
 	}
+	// 64-bit integers that differ only below the 53-bit mantissa of a float64 (carried as decimal strings): a
+	// kernel that compares through float64 sees ties where there are none
+	for _, dt := range []string{"i64", "u64"} {
+		rows := map[string][]any{
+			"i64": {"1152921504606846976", "1152921504606846977", "1152921504606846978", "-1152921504606846978", "-1152921504606846977", "-1152921504606846976",
+				"9223372036854775806", "9223372036854775807", "9223372036854775805"},
+			"u64": {"1152921504606846976", "1152921504606846977", "1152921504606846978", "18446744073709551613", "18446744073709551615", "18446744073709551614",
+				"9223372036854775809", "9223372036854775808", "9223372036854775807"},
+		}[dt]
+		x := &TJ{Dt: dt, Shape: []int{3, 3}, Data: append([]any{}, rows...)}
+		for _, ax := range []int64{0, 1, -1} {
+			e.emit(opCase("wide-int", "ArgMax", []Attr{{Name: "axis", Type: "i", I: ax}}, []*TJ{x}, nil))
+			e.emit(opCase("wide-int", "ReduceMax", []Attr{{Name: "axes", Type: "ints", Ints: []int64{ax}}, {Name: "keepdims", Type: "i", I: 0}}, []*TJ{x}, nil))
+			e.emit(opCase("wide-int", "ReduceMin", []Attr{{Name: "axes", Type: "ints", Ints: []int64{ax}}}, []*TJ{x}, nil))
+		}
+	}
+	// reductions over NaN and infinities (the caller's tensor must come back untouched whatever the result is)
+	{
+		nan, inf := math.NaN(), math.Inf(1)
+		for _, dt := range []string{"f32", "f64"} {
+			x := fT(dt, []int{2, 3}, []float64{1, nan, 3, -inf, inf, nan})
+			x3 := fT(dt, []int{2, 2, 2}, []float64{nan, 1, 2, nan, inf, -inf, 0, math.Copysign(0, -1)})
+			for _, op := range []string{"ReduceMax", "ReduceMin"} {
+				for _, ax := range []int64{0, 1, -1} {
+					e.emit(opCase("reduce-special", op, []Attr{{Name: "axes", Type: "ints", Ints: []int64{ax}}}, []*TJ{x}, nil))
+					e.emit(opCase("reduce-special", op, []Attr{{Name: "axes", Type: "ints", Ints: []int64{ax}}, {Name: "keepdims", Type: "i", I: 0}}, []*TJ{x3}, nil))
+				}
+			}
+		}
+	}
 	// every element type at the gate of every operator of the family: the admitted ones compute, the others
 	// are refused (the pinned table of Spec/Types.lean decides which are which)
 	for _, dt := range allDts {
